@@ -40,8 +40,11 @@ class Profile:
 
     def __init__(self, *, lat_kind='uniform', lat=0.01, stall_call=None, crash_at=None,
                  crash_commit_inflight=None, fail_call=None, fail_mode='before', proc='p',
-                 list_order='sorted', fail_op=None, stall_time=30.0):
+                 list_order='sorted', fail_op=None, stall_time=30.0, exists_lies_p=0.0, unavailable=(), lat_cap=60.0):
+        self.lat_cap = lat_cap
         self.stall_time = stall_time
+        self.exists_lies_p = exists_lies_p    # eventual consistency: exists() may deny an object that is there
+        self.unavailable = set(unavailable)   # objects that cannot be read during this process (still listed)
         self.lat_kind, self.lat = lat_kind, lat
         self.stall_call = stall_call          # index of one call that takes very long
         self.crash_at = crash_at              # crash just before the k-th mutation commit of this process
@@ -103,7 +106,7 @@ class _Base:
         if p.lat_kind == 'uniform':
             return rng.random() * p.lat
         if p.lat_kind == 'heavy':
-            return min(p.lat * (rng.paretovariate(1.2) - 1.0), 60.0)
+            return min(p.lat * (rng.paretovariate(1.2) - 1.0), p.lat_cap)
         if p.lat_kind == 'bimodal':
             return p.lat * (10.0 if rng.random() < 0.1 else 0.1) * rng.random()
         return 0.0
@@ -177,6 +180,22 @@ class _Base:
         self._apply(rec['op'], rec['name'], data)
         CTX.s.log('io-commit', rec['op'], rec['name'])
 
+    def _exists_answer(self, name):
+        p = self.profile
+        if name in p.unavailable:
+            self.fired['unavailable'] = self.fired.get('unavailable', 0) + 1
+            return False
+        present = name in self.state.objects
+        if present and p.exists_lies_p and CTX.env.fault.random() < p.exists_lies_p:
+            self.fired['exists_lied'] = self.fired.get('exists_lied', 0) + 1
+            return False
+        return present
+
+    def _check_available(self, name):
+        if name in self.profile.unavailable:
+            self.fired['unavailable'] = self.fired.get('unavailable', 0) + 1
+            raise SimBackendError(f'injected: object {name} temporarily cannot be read')
+
     def _listing(self, prefix):
         names = [k for k in self.state.objects if k.startswith(prefix)]
         names.sort()
@@ -204,7 +223,7 @@ class SimStore(_Base, Backend):
         try:
             self._pause(self._latency(rec))
             self._fail_before(rec)
-            return name in self.state.objects
+            return self._exists_answer(name)
         finally:
             self._end(rec)
 
@@ -244,6 +263,7 @@ class SimStore(_Base, Backend):
         try:
             self._pause(self._latency(rec))
             self._fail_before(rec)
+            self._check_available(name)
             try:
                 return self.state.objects[name]
             except KeyError:
@@ -256,6 +276,7 @@ class SimStore(_Base, Backend):
         try:
             self._pause(self._latency(rec))
             self._fail_before(rec)
+            self._check_available(name)
             try:
                 data = self.state.objects[name]
             except KeyError:
@@ -313,7 +334,7 @@ class AsyncSimStore(_Base, Backend):
         try:
             await self._pause(self._latency(rec))
             self._fail_before(rec)
-            return name in self.state.objects
+            return self._exists_answer(name)
         finally:
             self._end(rec)
 
@@ -353,6 +374,7 @@ class AsyncSimStore(_Base, Backend):
         try:
             await self._pause(self._latency(rec))
             self._fail_before(rec)
+            self._check_available(name)
             try:
                 return self.state.objects[name]
             except KeyError:
@@ -365,6 +387,7 @@ class AsyncSimStore(_Base, Backend):
         try:
             await self._pause(self._latency(rec))
             self._fail_before(rec)
+            self._check_available(name)
             try:
                 data = self.state.objects[name]
             except KeyError:
